@@ -210,6 +210,21 @@ pub fn run(ctx: &mut Ctx) {
             _ => None,
         };
         let proto = if ctx.rng.chance(1, 3) { "h1" } else { "h2" };
+        // an end-to-end Authorization header on every request of one session in three: it is for the origin, not for this
+        // proxy - credentials in it (valid ones included) never pass the gate, and it does not spoil an accepted connection
+        let e2e: Option<Vec<u8>> = if ctx.rng.chance(1, 3) {
+            Some(match ctx.rng.below(4) {
+                0 => format!("Basic {}", valid).into_bytes(),
+                1 => format!("Basic {}", b64("Alice:S3cret")).into_bytes(),
+                2 => b"Bearer origin-token".to_vec(),
+                _ => format!("Basic {}", b64("origin:secret")).into_bytes(),
+            })
+        } else {
+            None
+        };
+        if e2e.is_some() {
+            ctx.stat("sessions_with_end_to_end_authorization");
+        }
         let nreq = if proto == "h1" { 1 } else { ctx.rng.range(1, if ctx.thorough() { 5 } else { 3 }) as usize };
         let mut script = FwdScript::default();
         script.udp_mux_fails = ctx.rng.chance(1, 8);
@@ -277,6 +292,11 @@ pub fn run(ctx: &mut Ctx) {
                 raw.extend_from_slice(h);
                 raw.extend_from_slice(b"\r\n");
             }
+            if let Some(e) = &e2e {
+                raw.extend_from_slice(b"Authorization: ");
+                raw.extend_from_slice(e);
+                raw.extend_from_slice(b"\r\n");
+            }
             raw.extend_from_slice(b"User-Agent: verif\r\n\r\n");
             let sc = sni_creds.clone();
             let out = rt.block_on(async { tokio::time::timeout(std::time::Duration::from_secs(120), h1_session(core, "localhost", sc, raw, 40_000)).await });
@@ -303,6 +323,9 @@ pub fn run(ctx: &mut Ctx) {
                         let mut h = vec![("user-agent".to_string(), b"verif".to_vec())];
                         if let Some(v) = &r.hdr {
                             h.push(("proxy-authorization".to_string(), v.clone()));
+                        }
+                        if let Some(e) = &e2e {
+                            h.push(("authorization".to_string(), e.clone()));
                         }
                         h
                     },
@@ -354,7 +377,11 @@ pub fn run(ctx: &mut Ctx) {
         egress.sort();
         let mut q = format!(
             "c10 session {} {} {} 30000 {}",
-            proto,
+            // (the model does not look at this token: the protocol and the end-to-end header are here for the replay)
+            match &e2e {
+                Some(e) => format!("{}+authorization={}", proto, hex(e)),
+                None => proto.to_string(),
+            },
             authn_tok(&authn),
             sni_creds.as_ref().map(|s| hex(s.as_bytes())).unwrap_or_else(|| "-".into()),
             reqs.len()
@@ -490,6 +517,36 @@ pub fn run_real(ctx: &mut Ctx) {
                     }
                     ctx.emit(&format!("c10 real {} {} {}", allow as u8, v6ok as u8, qtail), &resp_tok(status, &headers));
                     ctx.stat(if method == "CONNECT" { "real_forwarder_refusal_codes" } else { "real_forwarder_refusal_codes_plain_http" });
+                }
+                // ---- the OS error of the outbound connect: which code the client is given (CONNECT to a global literal; the door's
+                // stub fails the connect with each error number) ----
+                if allow && v6ok {
+                    for e in [libc::ENETUNREACH, libc::EHOSTUNREACH, libc::EHOSTDOWN, libc::ENETDOWN, libc::ETIMEDOUT, libc::ECONNREFUSED, libc::ECONNRESET, libc::EACCES, libc::EADDRNOTAVAIL, libc::EPERM, libc::ENOBUFS] {
+                        for (authority, method) in [("93.184.216.34:443", "CONNECT"), ("[2606:4700:4700::1111]:443", "CONNECT"), ("93.184.216.34:8080", "GET")] {
+                            hooks::reset();
+                            hooks::STATE.lock().unwrap().stub_tcp_connect_errno = Some(e);
+                            let raw = if method == "CONNECT" {
+                                format!("CONNECT {} HTTP/1.1\r\nHost: {}\r\n\r\n", authority, authority).into_bytes()
+                            } else {
+                                format!("GET http://{}/x HTTP/1.1\r\nHost: {}\r\n\r\n", authority, authority).into_bytes()
+                            };
+                            let rt = tokio::runtime::Builder::new_current_thread().enable_all().start_paused(true).build().unwrap();
+                            let out = rt.block_on(h1_session(&core, "localhost", None, raw, 2_000));
+                            let (status, headers, heads) = parse_resp_h1(&out);
+                            if heads != 1 {
+                                ctx.oracle_failure("more_than_one_response", &format!("{} {} with the connect failing with errno {}: {} response heads", method, authority, e, heads));
+                            }
+                            // what the codes mean does not depend on the table the model was given: no route (to the network or to
+                            // the host) is 301, a timed-out connect 302, anything else 300
+                            let documented = if e == libc::ENETUNREACH || e == libc::EHOSTUNREACH { "502 301 0 0" } else if e == libc::ETIMEDOUT { "502 302 0 0" } else { "502 300 0 0" };
+                            let got = resp_tok(status, &headers);
+                            if got != documented {
+                                ctx.oracle_failure("os_error_code", &format!("{} {} through the real direct forwarder, the connect failing with OS error {} ({}): answered [{}], documented [{}]", method, authority, e, std::io::Error::from_raw_os_error(e), got, documented));
+                            }
+                            ctx.emit(&format!("c10 errno {}", e), &resp_tok(status, &headers));
+                            ctx.stat("real_forwarder_connect_errnos");
+                        }
+                    }
                 }
                 hooks::reset();
             }
